@@ -146,6 +146,15 @@ def bool_edges(fn, call_bb, call_t):
     return None, None
 
 
+def reach_if(fn, call_bbs, value, starts=None, removed_blocks=()):
+    """blocks reachable (path-sensitively) when the bool calls at `call_bbs` return `value` every time they run; from the first of
+    them unless `starts` is given"""
+    call_bbs = list(call_bbs)
+    v = 1 if value else 0
+    return fn.reachable_ps(starts if starts is not None else call_bbs[:1], removed_blocks=removed_blocks,
+                           call_values=lambda b, t: (v if b in call_bbs else None))
+
+
 def ordering_of(fn, operand):
     for o in origins(fn, operand):
         if o.kind == 'agg' and o.stmt['rv'].get('adt') == 'core::sync::atomic::Ordering':
@@ -159,11 +168,11 @@ COMBINATORS = ['then', 'and', 'all', 'map_effect', 'map_event', 'from', 'into', 
 FRESH_CALLS = ['crux_core::command::Command::new', 'crux_core::command::Command::done'] + ['crux_core::command::Command::' + n for n in COMBINATORS]
 
 
-def check_fresh_host(rep, core):
-    """R06.g: a combinator returns a fresh command that hosts its operands; it never returns one of the operands with the others
+def check_fresh_host(rep, core, rid='R06.g'):
+    """rid (R06.g): a combinator returns a fresh command that hosts its operands; it never returns one of the operands with the others
     spawned onto it.  An operand's abort flag is shared with every AbortHandle taken from it before the composition: if the operand
     becomes the host, aborting that one member clears the tasks hosting its siblings too."""
-    rep.rule('R06.g', 'combinators return a fresh command hosting their operands, never one of the operands (whose abort flag would then '
+    rep.rule(rid, 'combinators return a fresh command hosting their operands, never one of the operands (whose abort flag would then '
              'govern its siblings)', floor=6)
     n = 0
     for name in COMBINATORS:
@@ -183,18 +192,18 @@ def check_fresh_host(rep, core):
             if operand:
                 # one instance per operand that can be returned (the finding on `and` is about its LEFT operand, parameter 1)
                 for pn in sorted(set(o.n for o in operand)):
-                    rep.bad('R06.g', 'Command::%s|returns-operand' % name if pn == 1 else 'Command::%s|returns-operand|parameter %d' % (name, pn),
+                    rep.bad(rid, 'Command::%s|returns-operand' % name if pn == 1 else 'Command::%s|returns-operand|parameter %d' % (name, pn),
                             'Command::%s returns its own operand (parameter %d) with the other command(s) spawned onto it — or instead of them: an AbortHandle '
                             'taken from an operand before the composition aborts its siblings as well, or no longer reaches the combined command' % (name, pn))
             elif other:
-                rep.bad('R06.g', 'Command::%s|returns-unknown' % name,
+                rep.bad(rid, 'Command::%s|returns-unknown' % name,
                         'Command::%s returns a command that is neither freshly created nor built by another combinator (%s): it may be one of the '
                         'operands, whose abort flag would govern its siblings' % (name, sorted(set(
                             norm(o.term.get('callee') or '?') if o.kind == 'call' else o.kind for o in other))))
             else:
-                rep.ok('R06.g', key, 'returns %s' % sorted(set(last_seg(o.term['callee']) for o in fresh)))
+                rep.ok(rid, key, 'returns %s' % sorted(set(last_seg(o.term['callee']) for o in fresh)))
     if n < 6:
-        rep.bad('R06.g', 'sites', 'expected at least 6 combinators on Command, found %d' % n)
+        rep.bad(rid, 'sites', 'expected at least 6 combinators on Command, found %d' % n)
 
 
 def check(ctx, rep):
@@ -245,20 +254,19 @@ def check(ctx, rep):
     first = [w for w in was if all(rs.dominates(w[0], x[0]) for x in was)]
     ok_b = False
     if first and runs and clears:
-        fe, te = bool_edges(rs, *first[0])
-        if fe and te:
-            others = [bb for bb, t in rs.calls() if bb != first[0][0]]
-            # everything except clear+return needs the false edge
-            needs = [b for b in runs + [bb for bb, t in rs.calls('crux_core::command::Command::spawn_new_tasks')]]
-            ok_b = all(b not in rs.reachable([0], removed_edges=[fe]) for b in needs) and \
-                any(c in rs.reachable([te[1]]) for c in clears) and first[0][0] in rs.reachable([0]) and \
-                all(rs.dominates(first[0][0], b) for b in needs)
+        # everything except clear + return needs the first test to answer "not aborted" (evaluated with that call's result fixed, so that a
+        # helper `clear_if_aborted() -> bool` whose result is tested a second time reads the same as the inline `if`)
+        needs = [b for b in runs + [bb for bb, t in rs.calls('crux_core::command::Command::spawn_new_tasks')]]
+        if_ab = reach_if(rs, [first[0][0]], True, starts=[0])
+        ok_b = all(b not in if_ab for b in needs) and any(c in if_ab for c in clears) and first[0][0] in rs.reachable([0]) and \
+            all(rs.dominates(first[0][0], b) for b in needs)
     rep.expect('R06.b', ok_b, 'settle|abort-first', 'the first thing run_until_settled does is test the aborted flag; true clears the slab and returns',
                'run_until_settled no longer tests the aborted flag before spawning or running tasks')
     for w in was:
-        fe, te = bool_edges(rs, *w)
-        good = te is not None and any(c in rs.reachable([te[1]], removed_blocks=runs) for c in clears) and \
-            not any(r in rs.reachable([te[1]]) for r in runs)
+        # given that this test answers "aborted": the slab is cleared before any task could run, and no task is run at all (whatever the
+        # shape: `if was_aborted() { clear; return }`, or a helper `clear_if_aborted() -> bool` whose result is tested again)
+        good = any(c in reach_if(rs, [w[0]], True, removed_blocks=runs) for c in clears) and \
+            not any(r in reach_if(rs, [w[0]], True) for r in runs)
         rep.expect('R06.b', good, 'settle|abort-edge@%d' % was.index(w), 'the aborted edge clears the tasks and returns without running any',
                    'run_until_settled: an aborted-flag test does not lead to clear + return')
     ok_c = bool(runs) and bool(was) and all(r not in rs.reachable_after(r, removed_blocks=[w[0] for w in was]) for r in runs)
